@@ -77,6 +77,10 @@ class CliWorld(ConnWorld):
             del was_alive
             if self.reconnect_in_callback is not None:
                 self.reconnect_in_callback(self)
+            if getattr(self, "slow_stop", False):
+                import asyncio as _asyncio
+
+                await _asyncio.sleep(8.0)
 
         return cb
 
@@ -136,7 +140,7 @@ def _refused_already(w: CliWorld, name: str) -> bool:
 
 
 class CliHarness:
-    def __init__(self, seed: tuple[str, ...], probe: bool = True, c07: bool = False, reconnect: bool = False) -> None:
+    def __init__(self, seed: tuple[str, ...], probe: bool = True, c07: bool = False, reconnect: bool = False, slow_stop: bool = False) -> None:
         # "@early-client": the APIClient object was created before the running loop existed (module-level client, then asyncio.run)
         self.early_client = bool(seed) and seed[0] == "@early-client"
         self.seed = list(seed[1:] if self.early_client else seed)
@@ -144,6 +148,7 @@ class CliHarness:
         self.probe = probe
         self.c07 = c07  # report the client-level stop-callback clauses (C07) instead of the C19 clauses
         self.reconnect = reconnect  # the user's stop callback immediately starts a new connection
+        self.slow_stop = slow_stop  # the user's stop callback takes its time (it awaits something for 8 s before it returns)
 
     def fresh(self) -> CliWorld:
         from .. import world as _world
@@ -153,6 +158,7 @@ class CliHarness:
             w = CliWorld()
         finally:
             _world.FOREIGN_LOOP_CLIENT[0] = False
+        w.slow_stop = self.slow_stop
         if self.reconnect:
             w.reconnect_in_callback = lambda ww: self._attempt(ww, "start")
         for lab in self.seed:
@@ -183,6 +189,9 @@ class CliHarness:
         s = w.live_sock()
         if s is not None and s.connect_result == 0 and not conning:
             io += ["hello", "hello_badver", "hello_badname", "eof", "DR", "garbage"]
+            if any(n.startswith("req#") and w.pending(n) for n in w.tasks):
+                # the device answers the outstanding request - alone, or in one chunk with its request to disconnect
+                io += ["DI", "DI+DR"]
         nt = w.loop.next_timer_at()
         tm = ["time"] if nt is not None and nt <= w.loop.time() + 1000 else []
         out = base + io + tm
@@ -250,6 +259,12 @@ class CliHarness:
         elif label == "eof":
             io = True
             w.io_eof(w.live_sock())
+        elif label in ("DI", "DI+DR"):
+            io = True
+            data = w.dframe(mk("DeviceInfoResponse", name="dev", mac_address="AA:BB:CC:DD:EE:FF"))
+            if label == "DI+DR":
+                data += w.dframe(mk("DisconnectRequest"))
+            w.io_chunk(w.live_sock(), data)
         elif label == "DR":
             io = True
             w.io_chunk(w.live_sock(), w.dframe(mk("DisconnectRequest")))
@@ -343,7 +358,8 @@ class CliHarness:
             w.tags.add("work-accepted")
             if exc is not None:
                 w.viol.append(f"C19:work-refused-in-session:{kind}: {kind} raised {type(exc).__name__}: {exc} although the session is alive")
-            elif not wrote:
+            elif not wrote and kind != "req":
+                # (a request may legitimately be answered from what the session already knows; a command or subscription has to reach the device)
                 w.viol.append(f"C19:work-not-sent:{kind}: {kind} in a live session wrote nothing")
         elif exc is not None and not isinstance(exc, APIConnectionError):
             w.viol.append(f"C19:work-wrong-error:{kind}: {kind} raised {type(exc).__name__}: {exc} (not a connection error)")
@@ -555,8 +571,8 @@ def surface_sweep(res: Result) -> dict[str, Any]:
     return {"surface_calls": n, "surface_methods": len(methods), "surface_stages": len(STAGES)}
 
 
-def factory(seed: tuple[str, ...], c07: bool = False, reconnect: bool = False) -> CliHarness:
-    return CliHarness(seed, c07=c07, reconnect=reconnect)
+def factory(seed: tuple[str, ...], c07: bool = False, reconnect: bool = False, slow_stop: bool = False) -> CliHarness:
+    return CliHarness(seed, c07=c07, reconnect=reconnect, slow_stop=slow_stop)
 
 
 SEEDS: list[tuple[str, ...]] = [
@@ -868,18 +884,22 @@ def run(tier: str, seed: int) -> Result:
     t_end = time.monotonic() + budget
     per = []
     cfgs = [(sd, False) for sd in SEEDS] + [(sd, True) for sd in SEEDS if "hello" in sd and sd[-1] == "hello"] + [(("connect", "tcp_ok", "hello"), True)]
+    # the application's stop callback is slow (still running while the next attempts are made)
+    cfgs += [(("start", "tcp_ok", "finish", "hello"), "slow"), (("start", "tcp_ok", "finish", "hello", "eof"), "slow"), (("start", "tcp_ok", "finish", "hello", "DR", "start"), "slow")]
     for i, (sd, rec) in enumerate(cfgs):
         depth, bound = (4, 1) if q else (6, 2)
+        slow = rec == "slow"
+        rec = rec is True
         if rec:
             depth -= 1
         left = max(5.0, (t_end - time.monotonic()) / min(3, len(cfgs) - i))  # most configurations finish far below their share: a hungry one may take a third of what is left
-        st = explore_parallel(factory, (sd, False, rec), depth=depth, bound=bound, budget_s=left, split_depth=1)
-        per.append({"seed": list(sd), "stop_callback_reconnects_immediately": rec, "depth_after_seed": depth, "deviation_bound": bound, "executions": st.executions, "states": st.states,
+        st = explore_parallel(factory, (sd, False, rec, slow), depth=depth, bound=bound, budget_s=left, split_depth=1)
+        per.append({"seed": list(sd), "stop_callback_reconnects_immediately": rec, "stop_callback_slow": slow, "depth_after_seed": depth, "deviation_bound": bound, "executions": st.executions, "states": st.states,
                     "transitions": st.transitions, "time_capped": st.time_capped})
         for v in st.violations:
             clause = v["violated"][0]
             kind = ":".join(clause.split(":")[:3])[:70]
-            res.add(kind, clause, {"harness": "c19", "seed": list(sd), "reconnect": rec, "choices": v["choices"], "violated": v["violated"],
+            res.add(kind, clause, {"harness": "c19", "seed": list(sd), "reconnect": rec, "slow_stop": slow, "choices": v["choices"], "violated": v["violated"],
                                    "observations": v["observations"]})
         total.merge(st)
     sweep = surface_sweep(res)
@@ -947,7 +967,7 @@ def replay(rp: dict[str, Any]) -> bool:
         for v in bad:
             print(" ", v.clause)
         return not bad
-    h = factory(tuple(d["seed"]), bool(d.get("c07")), bool(d.get("reconnect")))
+    h = factory(tuple(d["seed"]), bool(d.get("c07")), bool(d.get("reconnect")), bool(d.get("slow_stop")))
     w = h.fresh()
     try:
         v: list[str] = []
